@@ -388,14 +388,15 @@ def t_inc(v):
     if isinstance(v, str):
         return v + "+"
     if isinstance(v, list):
-        return list(v) + [9] if all(isinstance(x, int) for x in v) else list(v)
+        return list(v) + [9] if all(isinstance(x, int) for x in v) else copy.deepcopy(v)
     if isinstance(v, dict):
-        d = dict(v)
-        if all(isinstance(x, int) for x in d.values()):
+        if all(isinstance(x, int) for x in v.values()):
+            d = dict(v)
             d["t"] = 9
-        return d
+            return d
+        return copy.deepcopy(v)
     if isinstance(v, set):
-        return set(v) | {9} if all(isinstance(x, int) for x in v) else set(v)
+        return set(v) | {9} if all(isinstance(x, int) for x in v) else copy.deepcopy(v)
     if hasattr(v, "with_x"):
         return v.with_x(v.x + 1)
     if hasattr(v, "with_n"):
